@@ -110,8 +110,9 @@ pub fn gen(seed: u64) -> Replay {
                 if rng.chance(8) {
                     // a seeded lower-half address (P4 slots 176..239 are free in this process), 8-byte
                     // aligned, all lower address bits varied
-                    let at = ((176 + rng.below(64)) << 39) | (rng.below(1 << 39) & !7);
-                    let at = if at & 0xfff > 0xf00 { at & !0xfff } else { at };
+                    // any 4-aligned placement, page-straddling ones included (a page pair is mapped)
+                    let at = ((176 + rng.below(64)) << 39) | (rng.below(1 << 39) & !3);
+                    let at = if rng.chance(20) { (at & !0xfff) | (0xf98 + 4 * rng.below(26)) } else { at };
                     if rng.chance(60) {
                         // the TSS holds seeded contents (I/O-map base beyond the structure, etc.)
                         let iomap = *rng.pick(&[0x68u64, 0x69, 0x100, 0x2000, 0xffff, 0, 0x67]);
